@@ -221,6 +221,52 @@ def check_array(acc, w, build, src, lst, kind, chain):
         if not deep_equal(got.get(k), v):
             bad("value", k, got.get(k))
             ok = False
+    # 2b. library consumers: the same call on the view `a` and on the plainly written array `p` gives the same result
+    #     (several of them ask the representation whether it is empty / cheap / how long it is in their own way)
+    consumers = [
+        "std.manifestYamlDoc({k: %s})", "std.manifestYamlDoc(%s)", "std.manifestYamlDoc({k: [%s]}, indent_array_in_object=true)",
+        "std.manifestJsonEx({k: %s}, ' ')", "std.manifestPython(%s)", "std.manifestTomlEx({k: %s}, ' ')", "std.toString({k: %s})",
+        "std.minArray(%s, onEmpty='E')", "std.maxArray(%s, onEmpty='E')", "std.sort(%s)", "std.set(%s)", "std.uniq(%s)", "std.sum(%s + [0])",
+        "std.flattenArrays([%s, %s])", "std.prune([%s, [], null])", "std.any(std.map(function(x) x == null, %s))", "std.all(std.map(function(x) x != null, %s))",
+        "std.find(null, %s)", "std.count(%s, null)", "std.contains(%s, null)", "std.join([], [%s, %s])", "std.deepJoin(std.map(std.toString, %s))",
+        "std.mapWithIndex(function(i, x) i, %s)", "std.foldr(function(x, acc) acc + 1, %s, 0)", "std.slice(%s, 0, null, 2)", "std.removeAt(%s + [0], 0)",
+        "std.avg(%s + [1])", "std.type(%s)", "std.isArray(%s)", "std.length(std.filterMap(function(x) true, function(x) x, %s))", "std.lines(std.map(std.toString, %s))",
+        "std.equals(%s, %s)", "std.manifestJson(%s)", "std.objectValues({a: %s})[0]", "std.get({a: %s}, 'a')", "std.assertEqual(%s, %s)",
+        "std.repeat(%s, 2)", "std.reverse(%s)", "[std.length(%s[i:]) for i in [0, 1, 100]]", "std.mergePatch({a: 0}, {a: %s}).a",
+        "std.manifestXmlJsonml(['t', {}] + std.map(std.toString, %s))", "std.manifestIni({main: {k: std.map(std.toString, %s)}, sections: {}})",
+    ]
+    def side(nm, which=None):
+        """all consumers in one program (which=None) or one of them; -> (class, payload-or-kind)"""
+        body = ("{%s}" % ", ".join("c%d: %s" % (i, c.replace("%s", nm)) for i, c in enumerate(consumers))) if which is None \
+            else consumers[which].replace("%s", nm)
+        cls, pay, rec = call("local a = %s, p = %s; %s" % (src, plain, body))
+        if cls in ("panic", "crash"):
+            ps = panic_sig(pay) if cls == "panic" else ("crash", "")
+            bad("crash", "consumers" if which is None else "consumer:" + consumers[which].split("(")[0], pay, {"site": ps[0], "msg": ps[1]})
+            return ("crash", None)
+        if cls in ("timeout", "harness"):
+            return ("inconclusive", None)
+        return (cls, pay if cls == "ok" else pay.get("kind"))
+
+    ra, rp = side("a"), side("p")
+    if "crash" in (ra[0], rp[0]):
+        ok = False
+    elif "inconclusive" in (ra[0], rp[0]):
+        pass
+    elif ra == rp and ra[0] == "ok":
+        acc.inc("consumer_probes_agree", len(consumers))
+    else:
+        # some consumer fails on this element type (then it must fail on both sides) or the two sides differ: one by one
+        for i in range(len(consumers)):
+            xa, xp = side("a", i), side("p", i)
+            if "crash" in (xa[0], xp[0]):
+                ok = False
+            elif "inconclusive" not in (xa[0], xp[0]) and xa != xp:
+                bad("consumer-tells-representations-apart", "consumer:" + consumers[i].split("(")[0], {"view": xa, "plain": xp},
+                    {"consumer": consumers[i].split("(")[0]})
+                ok = False
+            else:
+                acc.inc("consumer_probes_agree")
     # 3. out-of-range and negative probes must each be an error
     for i in (-2, -1, L, L + 1, L + 2):
         cls, pay, rec = call("local a = %s; a[%d]" % (src, i))
